@@ -16,6 +16,8 @@ theorem switch_refines_flags : type_of% @GLua.Props.C06.switch_refines_flags := 
 theorem resume_only_suspended_prefix_fails : type_of% @GLua.Props.C06.resume_only_suspended_prefix_fails := @GLua.Props.C06.resume_only_suspended_prefix_fails
 theorem status_prefix_fails : type_of% @GLua.Props.C06.status_prefix_fails := @GLua.Props.C06.status_prefix_fails
 theorem resume_first_binds_partial : type_of% @GLua.Props.C06.resume_first_binds_partial := @GLua.Props.C06.resume_first_binds_partial
+theorem resume_first_binds : type_of% @GLua.Props.C06.resume_first_binds := @GLua.Props.C06.resume_first_binds
+theorem resume_first_entry : type_of% @GLua.Props.C06.resume_first_entry := @GLua.Props.C06.resume_first_entry
 theorem yield_results_adjusted : type_of% @GLua.Props.C06.yield_results_adjusted := @GLua.Props.C06.yield_results_adjusted
 theorem yield_results_adjusted_prefix_fails : type_of% @GLua.Props.C06.yield_results_adjusted_prefix_fails := @GLua.Props.C06.yield_results_adjusted_prefix_fails
 theorem tail_yield_prefix_fails : type_of% @GLua.Props.C06.tail_yield_prefix_fails := @GLua.Props.C06.tail_yield_prefix_fails
@@ -23,5 +25,16 @@ theorem error_kills_only_thread : type_of% @GLua.Props.C06.error_kills_only_thre
 theorem error_kills_only_thread_wrapped : type_of% @GLua.Props.C06.error_kills_only_thread_wrapped := @GLua.Props.C06.error_kills_only_thread_wrapped
 theorem error_kills_wrapped_prefix_fails : type_of% @GLua.Props.C06.error_kills_wrapped_prefix_fails := @GLua.Props.C06.error_kills_wrapped_prefix_fails
 theorem gbody_prefix_fails : type_of% @GLua.Props.C06.gbody_prefix_fails := @GLua.Props.C06.gbody_prefix_fails
+theorem history_step_simulation : type_of% @GLua.Props.C06.history_step_simulation := @GLua.Props.C06.history_step_simulation
+theorem history_simulation_partial : type_of% @GLua.Props.C06.history_simulation_partial := @GLua.Props.C06.history_simulation_partial
+theorem history_traces_agree : type_of% @GLua.Props.C06.history_traces_agree := @GLua.Props.C06.history_traces_agree
+theorem history_parent_chain : type_of% @GLua.Props.C06.history_parent_chain := @GLua.Props.C06.history_parent_chain
+theorem wrap_error_reraised : type_of% @GLua.Props.C06.wrap_error_reraised := @GLua.Props.C06.wrap_error_reraised
+theorem wrap_dead_call_refused : type_of% @GLua.Props.C06.wrap_dead_call_refused := @GLua.Props.C06.wrap_dead_call_refused
+theorem isolation_step : type_of% @GLua.Props.C06.isolation_step := @GLua.Props.C06.isolation_step
+theorem isolation_switch : type_of% @GLua.Props.C06.isolation_switch := @GLua.Props.C06.isolation_switch
+theorem isolation_resume : type_of% @GLua.Props.C06.isolation_resume := @GLua.Props.C06.isolation_resume
+theorem history_simulation_full_fails : type_of% @GLua.Props.C06.history_simulation_full_fails := @GLua.Props.C06.history_simulation_full_fails
+theorem history_trace_equivalence : type_of% @GLua.Props.C06.history_trace_equivalence := @GLua.Props.C06.history_trace_equivalence
 
 end GLua.Props.C06M
